@@ -111,6 +111,7 @@ type Reader struct {
 	Err     error
 	Chunked bool
 	Reads   int
+	Eager   bool // deliver the last bytes together with io.EOF / the injected error (the io.Reader contract allows both)
 }
 
 func (r *Reader) Read(p []byte) (int, error) {
@@ -136,5 +137,13 @@ func (r *Reader) Read(p []byte) (int, error) {
 	}
 	copy(p, r.S[r.pos:r.pos+n])
 	r.pos += n
+	if r.Eager && n > 0 {
+		if r.FailAt >= 0 && r.pos >= r.FailAt {
+			return n, r.Err
+		}
+		if r.pos >= len(r.S) {
+			return n, io.EOF
+		}
+	}
 	return n, nil
 }
